@@ -47,3 +47,18 @@ Print Assumptions C01_wellformed.
 (* non-vacuity: valid trains with an edge spike, a shared spike and an empty train *)
 Example C01_nonvacuous : valid 0 1 [0; 3/8; 1] /\ valid 0 1 [3/8; 5/8] /\ valid 0 1 [].
 Proof. repeat split; try lra; valid_tac. Qed.
+
+(* ---- executed instance (Q, extracted to OCaml and run against /repo) = the real-number functions
+   the theorems above are about: kernel-checked parametricity bridge (Bridge.v).  qL = map Q2R etc. ---- *)
+From Coq Require Import QArith Qreals.
+From PS Require Import Bridge.
+Local Close Scope Q_scope.
+Theorem C01_exec_isi_profile_py_transfer : forall (s1 s2 : list Q) (ts te m : Q), qLL (isi_profile_py QOps s1 s2 ts te m) = isi_profile_py ROps (qL s1) (qL s2) (Q2R ts) (Q2R te) (Q2R m).
+Proof. exact isi_profile_py_transfer. Qed.
+Print Assumptions C01_exec_isi_profile_py_transfer.
+Theorem C01_exec_isi_profile_cy_transfer : forall (s1 s2 : list Q) (ts te m : Q), qLL (isi_profile_cy QOps s1 s2 ts te m) = isi_profile_cy ROps (qL s1) (qL s2) (Q2R ts) (Q2R te) (Q2R m).
+Proof. exact isi_profile_cy_transfer. Qed.
+Print Assumptions C01_exec_isi_profile_cy_transfer.
+Theorem C01_exec_isi_spec_transfer : forall (s1 s2 : list Q) (ts te m : Q), qLL (isi_spec QOps s1 s2 ts te m) = isi_spec ROps (qL s1) (qL s2) (Q2R ts) (Q2R te) (Q2R m).
+Proof. exact isi_spec_transfer. Qed.
+Print Assumptions C01_exec_isi_spec_transfer.
